@@ -16,8 +16,8 @@ From Coq Require Import ZArith.
 From Trzsz Require Export Base.Bytes.
 From Trzsz Require Import Gen.Consts.
 
-Definition rune := N.
-Definition str := list rune.
+Notation rune := N (only parsing).
+Notation str := (list N) (only parsing).
 
 (* ---- generic string helpers ---- *)
 
